@@ -238,4 +238,4 @@ def chain_family(filters) -> str:
     return "+".join(FILTER_NAMES.get(f["id"], hex(f["id"])) for f in filters)
 
 
-HEADER_MODES = ["raw", "encoded", "encrypted-flag", "encrypted-setter"]
+HEADER_MODES = ["raw", "encoded", "encrypted-flag", "encrypted-setter", "encrypted-flag+enc", "encrypted-setter+enc"]
